@@ -197,7 +197,11 @@ def connected_implies_received(ctx, rule):
         if v is True:
             n_true += 1
             cfg = ctx.cfg(a.fn)
-            lr = [(b, i, s) for (b, i, s) in field_stores(a.fn, CONN, "last_received") if cfg.postdominates(b, a.bb) or b == a.bb]
+            # a stamp on the same path: after the store (post-dominating) or before it (dominating, with no `None` store in between)
+            allst = field_stores(a.fn, CONN, "last_received")
+            nones = [b for (b, i, s) in allst if ctx.fa(a.fn).val_rvalue(s["rv"], (b, i))[2:3] and str(ctx.fa(a.fn).val_rvalue(s["rv"], (b, i))[2]).endswith("::None")]
+            lr = [(b, i, s) for (b, i, s) in allst if cfg.postdominates(b, a.bb) or b == a.bb or
+                  (cfg.dominates(b, a.bb) and not any(cfg.can_reach(b, nb) and cfg.can_reach(nb, a.bb) and nb != b for nb in nones))]
             fa = ctx.fa(a.fn)
             some = [1 for (b, i, s) in lr if fa.val_rvalue(s["rv"], (b, i))[0] == "agg" and fa.val_rvalue(s["rv"], (b, i))[2].endswith("::Some")]
             ctx.chk.ob(rule, "connected := true is followed by last_received := Some(..) (%s)" % sname(a.fn.stable), bool(some), "",
